@@ -965,3 +965,97 @@ def make_event(plan: Plan, o: Oracle, exc, post, pre_tree) -> dict:
         'post': post,
     }
     return e
+
+
+# ----------------------------------------------------------------------------------------------------------------------
+# other edits of C01's list: docstring / line-comment accessors, par()
+
+DOC_TEXTS = ['doc', 'multi\nline doc', 'with "quotes" inside', "with \'\'\'triple", 'back\\slash', '\u00fcn\u00ef \u2603',
+             'ends with quote"', 'line one\n\n    indented third\nlast', 'tab\there', None, None]
+COMMENTS = ['new comment', 'c', '\u00fc comment', 'has # hash', None, None]
+
+
+class MiscPlan:
+    __slots__ = ('op', 'path', 'kind', 'arg', 'extra')
+
+    def describe(self):
+        return {'op': self.op, 'path': self.path, 'kind': self.kind, 'arg': self.arg, 'extra': self.extra, 'misc': True}
+
+
+def plan_misc(rng: random.Random, tree):
+    nodes = [(n, p) for n, p in walk_paths(tree)]
+    r = rng.random()
+    m = MiscPlan()
+    m.extra = {}
+    if r < 0.4:
+        c = [(n, p) for n, p in nodes if isinstance(n, (ast.Module, ast.FunctionDef, ast.AsyncFunctionDef, ast.ClassDef))]
+        n, p = rng.choice(c)
+        m.op, m.arg = 'put_docstr', rng.choice(DOC_TEXTS)
+        m.extra = {'reput': rng.random() < 0.3}
+    elif r < 0.75:
+        c = [(n, p) for n, p in nodes if isinstance(n, ast.stmt)]
+        if not c:
+            return None
+        n, p = rng.choice(c)
+        m.op, m.arg = 'put_line_comment', rng.choice(COMMENTS)
+        fields = [None]
+        for fld in ('body', 'orelse', 'finalbody'):
+            if getattr(n, fld, None):
+                fields.append(fld)
+        m.extra = {'field': rng.choice(fields)}
+    else:
+        c = [(n, p) for n, p in nodes if isinstance(n, ast.expr) and isinstance(getattr(n, 'ctx', ast.Load()), ast.Load)
+             and not any(f in ('format_spec',) for f, _ in p)]
+        c = [(n, p) for n, p in c if not _under_ftstr(tree, p) and not _under_pattern(tree, p)]
+        if not c:
+            return None
+        n, p = rng.choice(c)
+        m.op, m.arg = 'par', None
+        m.extra = {'force': rng.random() < 0.3}
+    m.path, m.kind = p, n.__class__.__name__
+    return m
+
+
+def _under(tree, path, kinds):
+    n = tree
+    for f, i in path:
+        if n.__class__.__name__ in kinds:
+            return True
+        n = getattr(n, f)
+        if i is not None:
+            n = n[i]
+    return n.__class__.__name__ in kinds
+
+
+def _under_ftstr(tree, path):
+    return _under(tree, path, ('JoinedStr', 'FormattedValue', 'TemplateStr', 'Interpolation'))
+
+
+def _under_pattern(tree, path):
+    return _under(tree, path, ('MatchValue', 'MatchSingleton', 'MatchSequence', 'MatchMapping', 'MatchClass', 'MatchStar',
+                               'MatchAs', 'MatchOr'))
+
+
+def execute_misc(m: MiscPlan, root):
+    f = node_at(root.a, m.path).f
+    try:
+        if m.op == 'put_docstr':
+            f.put_docstr(m.arg, **m.extra)
+        elif m.op == 'put_line_comment':
+            f.put_line_comment(m.arg, **m.extra)
+        elif m.op == 'par':
+            f.par(**m.extra)
+        else:
+            raise AssertionError(m.op)
+    except Exception as e:  # noqa: BLE001
+        return e
+    return None
+
+
+def make_misc_event(m: MiscPlan, exc, post) -> dict:
+    return {'call': 'misc', 'op': m.op, 'path': path_json(m.path), 'kind': m.kind,
+            'arg': 'None' if m.arg is None else m.arg.encode('ascii', 'backslashreplace').decode(),
+            'outcome': 'ok' if exc is None else 'raise', 'exc': '' if exc is None else type(exc).__name__,
+            'msg': '' if exc is None else str(exc)[:200].encode('ascii', 'replace').decode(),
+            'form': 'misc', 'field': '', 'codeform': '', 'start': bound(None), 'stop': bound(None), 'idx': bound(None),
+            'post': post}
